@@ -152,6 +152,8 @@ let parse_hacts toks n =
     | "i" :: r :: rest -> go rest (n-1) (Machine.HIncReg (Enums_regs.reg_of_string r) :: acc)
     | "m" :: a :: d :: rest -> go rest (n-1) (Machine.HWriteMem (z_of_hex a, bytes_of_hex d) :: acc)
     | "f" :: v :: rest -> go rest (n-1) (Machine.HSetFlags (z_of_hex v) :: acc)
+    | "t" :: ba :: mn :: r :: rest ->
+      go rest (n-1) (Machine.HTryHook (ba = "b", Enums_codes.mnemonic_of_string mn, Enums_regs.reg_of_string r) :: acc)
     | _ -> failwith "bad hook action" in
   go toks n []
 
